@@ -349,7 +349,7 @@ mod k {
         kani::cover!(true, "every call returned");
     }
 
-    /// VERIF: {"p":"C19","tier":"quick","fns":["config::parse_i64","config::parse_num","config::parse_string","config::parse_boolean","config::parse_duration","config::parse_string_ip","config::parse_string_ip4","config::parse_string_ip6","config::str_ip","config::str_duration"],"bounds":"every typed parser except hwaddr/prefix/sockaddr (str::split, not reachable) on the string \"x\"","oracle":"Ok(Some) for parse_string, Err(InvalidConfig) for the others; never a panic","stubs":["alloc::fmt::format -> empty string (message text only)"],"covers":1,"unwind":8}
+    /// VERIF: {"p":"C19","tier":"experimental","fns":["config::parse_i64","config::parse_num","config::parse_string","config::parse_boolean","config::parse_duration","config::parse_string_ip","config::parse_string_ip4","config::parse_string_ip6","config::str_ip","config::str_duration"],"bounds":"every typed parser except hwaddr/prefix/sockaddr (str::split, not reachable) on the string \"x\"","oracle":"Ok(Some) for parse_string, Err(InvalidConfig) for the others; never a panic","stubs":["alloc::fmt::format -> empty string (message text only)"],"covers":1,"unwind":8}
     #[kani::proof]
     #[kani::unwind(8)]
     #[kani::stub(alloc::fmt::format, empty_format)]
@@ -358,7 +358,7 @@ mod k {
         kani::cover!(true, "every call returned");
     }
 
-    /// VERIF: {"p":"C19","tier":"quick","fns":["config::parse_i64","config::parse_num::<u8>","config::parse_num::<u32>","config::parse_string","config::parse_boolean","config::type_to_name"],"bounds":"each primitive typed parser on the NON-empty sequence `[~]` and on the empty mapping where a scalar is expected","oracle":"Err(InvalidConfig); never a panic","stubs":["alloc::fmt::format -> empty string (message text only)","std::hash::RandomState::new -> fixed keys (creating the empty Hash)"],"covers":1,"unwind":8}
+    /// VERIF: {"p":"C19","tier":"experimental","fns":["config::parse_i64","config::parse_num::<u8>","config::parse_num::<u32>","config::parse_string","config::parse_boolean","config::type_to_name"],"bounds":"each primitive typed parser on the NON-empty sequence `[~]` and on the empty mapping where a scalar is expected","oracle":"Err(InvalidConfig); never a panic","stubs":["alloc::fmt::format -> empty string (message text only)","std::hash::RandomState::new -> fixed keys (creating the empty Hash)"],"covers":1,"unwind":8}
     #[kani::proof]
     #[kani::unwind(8)]
     #[kani::stub(alloc::fmt::format, empty_format)]
@@ -369,7 +369,7 @@ mod k {
         kani::cover!(true, "every call returned");
     }
 
-    /// VERIF: {"p":"C19","tier":"quick","fns":["config::parse_i64","config::parse_num::<u8>","config::parse_num::<u32>","config::parse_string","config::parse_boolean","config::type_to_name"],"bounds":"each primitive typed parser on the NON-empty sequence `[\"a\",\"b\"]` where a scalar is expected","oracle":"Err(InvalidConfig); never a panic","stubs":["alloc::fmt::format -> empty string (message text only)"],"covers":1,"unwind":8}
+    /// VERIF: {"p":"C19","tier":"experimental","fns":["config::parse_i64","config::parse_num::<u8>","config::parse_num::<u32>","config::parse_string","config::parse_boolean","config::type_to_name"],"bounds":"each primitive typed parser on the NON-empty sequence `[\"a\",\"b\"]` where a scalar is expected","oracle":"Err(InvalidConfig); never a panic","stubs":["alloc::fmt::format -> empty string (message text only)"],"covers":1,"unwind":8}
     #[kani::proof]
     #[kani::unwind(8)]
     #[kani::stub(alloc::fmt::format, empty_format)]
@@ -572,7 +572,7 @@ mod k {
         kani::cover!(w4 == Some(3 * 604800 + 2), "3w 2 / 3w2s");
     }
 
-    /// VERIF: {"p":"C19","tier":"thorough","fns":["config::str_duration"],"bounds":"every ASCII string of length 5 in which each unit letter that precedes the first foreign character has a digit between it and the previous unit letter","oracle":"as c19_str_duration_value_wellformed_short","stubs":["alloc::fmt::format -> empty string (message text only)"],"covers":2,"unwind":9}
+    /// VERIF: {"p":"C19","tier":"experimental","fns":["config::str_duration"],"bounds":"every ASCII string of length 5 in which each unit letter that precedes the first foreign character has a digit between it and the previous unit letter","oracle":"as c19_str_duration_value_wellformed_short","stubs":["alloc::fmt::format -> empty string (message text only)"],"covers":2,"unwind":9}
     #[kani::proof]
     #[kani::unwind(9)]
     #[kani::stub(alloc::fmt::format, empty_format)]
